@@ -268,6 +268,7 @@ static int op_shufflin(void) {
   CellTok **cl = NULL;
   int *nn = NULL, *ncl = NULL;
   long long *gpart = NULL; /* part of a global as the node tokens say (-1: not seen) */
+  char *gconf = NULL;      /* copies of that global disagree on the part: allowed only when no cell references it */
   long long **rounds = NULL;
   char *f[64];
   if (NHDR != 3 || !is_nat_tok(HDR(0)) || !is_nat_tok(HDR(1)) || !is_nat_tok(HDR(2))) return BAD;
@@ -281,6 +282,7 @@ static int op_shufflin(void) {
   nn = (int *)zalloc((size_t)np, sizeof(int));
   ncl = (int *)zalloc((size_t)np, sizeof(int));
   gpart = (long long *)zalloc((size_t)N, sizeof(long long));
+  gconf = (char *)zalloc((size_t)N, 1);
   rounds = (long long **)zalloc((size_t)nround, sizeof(long long *));
   for (i = 0; i < N; i++) gpart[i] = -1;
   for (g = 0; g < np && !rc; g++) {
@@ -304,7 +306,7 @@ static int op_shufflin(void) {
       t->part = h_i(f[1]);
       if (t->glob >= N || t->part >= np || seen[t->glob]) { rc = BAD; break; }
       seen[t->glob] = 1;
-      if (gpart[t->glob] >= 0 && gpart[t->glob] != t->part) { rc = BAD; break; }
+      if (gpart[t->glob] >= 0 && gpart[t->glob] != t->part) gconf[t->glob] = 1; /* copies disagree on the part */
       gpart[t->glob] = t->part;
       for (i = 0; i < nval; i++) {
         if (!is_hex16(f[2 + i])) rc = BAD;
@@ -331,6 +333,10 @@ static int op_shufflin(void) {
     ncl[g] = rc ? 0 : len - cpos - 1;
     free(seen);
   }
+  for (g = 0; g < np && !rc; g++)
+    for (k = 0; k < ncl[g] && !rc; k++)
+      for (i = 0; i < cl[g][k].n; i++)
+        if (gconf[cl[g][k].v[i]]) rc = BAD;
   for (k = 1; k < nround && !rc; k++) {
     g = np + k - 1;
     if (GLEN(g) != N) { rc = BAD; break; }
@@ -396,6 +402,7 @@ static int op_shufflin(void) {
   free(nn);
   free(ncl);
   free(gpart);
+  free(gconf);
   return rc;
 }
 
